@@ -26,13 +26,12 @@ let print_coq (s : Model.string) : unit =
   go s;
   print_string (Buffer.contents buf)
 
-let read_all () : string =
-  let buf = Buffer.create 65536 in
-  (try
-     while true do
-       Buffer.add_channel buf stdin 1
-     done
-   with End_of_file -> ());
-  Buffer.contents buf
-
-let () = print_coq (Model.run (coq_of_string (read_all ())))
+(* one case per line: the model is run line by line so that recursion depth is bounded by the
+   length of a line, not of the whole file *)
+let () =
+  try
+    while true do
+      let l = input_line stdin in
+      if String.length l > 0 then print_coq (Model.run (coq_of_string (l ^ "\n")))
+    done
+  with End_of_file -> ()
